@@ -77,7 +77,7 @@ func (g *Grammar) valid() error {
 		}
 		need := -1
 		switch n.Op {
-		case "rune", "op", "empty", "int", "float", "str", "char", "bool", "nil", "word", "regexp", "dur", "end":
+		case "rune", "urune", "op", "empty", "int", "float", "str", "char", "bool", "nil", "word", "regexp", "dur", "end":
 			need = 0
 		case "opt", "many", "many1", "ltrim", "rtrim", "single", "suppress", "ref", "sentence", "memo":
 			need = 1
@@ -93,7 +93,7 @@ func (g *Grammar) valid() error {
 		if need >= 0 && len(n.Kids) != need {
 			return fmt.Errorf("node %d: %s needs %d kids", i, n.Op, need)
 		}
-		if (n.Op == "rune" || n.Op == "op" || n.Op == "word") && n.Arg == "" {
+		if (n.Op == "rune" || n.Op == "urune" || n.Op == "op" || n.Op == "word") && n.Arg == "" {
 			return fmt.Errorf("node %d: empty literal", i)
 		}
 	}
@@ -156,6 +156,14 @@ func build(g *Grammar, o *buildOpts) *built {
 		switch nd.Op {
 		case "rune":
 			p = terminal.Rune([]rune(nd.Arg)[0])
+		case "urune":
+			// a user-supplied leaf parser: the other place (besides interpreters) where a
+			// caller can be aborted by a panic in user code while a parse is in flight
+			inner := terminal.Rune([]rune(nd.Arg)[0])
+			p = parser.Func(func(ctx *parsley.Context, lrc data.IntMap, pos parsley.Pos) (parsley.Node, data.IntSet, parsley.Error) {
+				sim.AbortPoint()
+				return inner.Parse(ctx, lrc, pos)
+			})
 		case "op":
 			p = terminal.Op(nd.Arg)
 		case "empty":
@@ -253,7 +261,7 @@ func build(g *Grammar, o *buildOpts) *built {
 
 func isLeafOp(op string) bool {
 	switch op {
-	case "rune", "op", "empty", "int", "float", "str", "char", "bool", "nil", "word", "regexp", "dur", "end":
+	case "rune", "urune", "op", "empty", "int", "float", "str", "char", "bool", "nil", "word", "regexp", "dur", "end":
 		return true
 	}
 	return false
@@ -374,6 +382,7 @@ type genOpts struct {
 	MemoChance int  // percent
 	Names      bool
 	Rich       bool // all literal terminals (C14)
+	User       bool // user-supplied leaf parsers with abort points (C14)
 }
 
 type gen struct {
@@ -403,6 +412,9 @@ func (x *gen) leaf() int {
 		}
 	default:
 		n.Op = "rune"
+		if x.o.User && r.Chance(1, 3) {
+			n.Op = "urune"
+		}
 		n.Arg = string(r.Pick(x.o.Alphabet))
 	}
 	x.g.Nodes = append(x.g.Nodes, n)
@@ -510,7 +522,7 @@ func (g *Grammar) sample(r *Rand, i, depth int, sb *strings.Builder) {
 		}
 	}
 	switch nd.Op {
-	case "rune", "op", "word":
+	case "rune", "urune", "op", "word":
 		sb.WriteString(nd.Arg)
 	case "int":
 		sb.WriteString([]string{"1", "42", "-7", "0x1f", "012"}[r.Intn(5)])
